@@ -467,3 +467,27 @@ def correspond(run, cases, imports, analyze=False, canon=canon_default, timeout=
     for c in cases[:3]:
         run.samples.append(dict(request=c["req"][:300], impl=(c["impl"] or "")[:300], model=(c["model"] or "")[:300]))
     return dis
+
+
+def run_harness_parallel(lines, analyze=False, timeout=900, nproc=None):
+    """Same contract as run_harness (answers in request order), the requests being split over
+    several harness processes.  Returns (answers, complete?)."""
+    from concurrent.futures import ThreadPoolExecutor
+    nproc = nproc or min(NPROC, max(1, len(lines) // 50))
+    chunks = [lines[i::nproc] for i in range(nproc)]
+    with ThreadPoolExecutor(max_workers=nproc) as ex:
+        res = list(ex.map(lambda ch: run_harness(ch, analyze=analyze, timeout=timeout), chunks))
+    out = [None] * len(lines)
+    complete = True
+    for k, (ans, rc, raw) in enumerate(res):
+        idx = list(range(k, len(lines), nproc))
+        if len(ans) != len(idx):
+            complete = False
+            # the process died on some request: find it one by one
+            ans = []
+            for i in idx:
+                one, rc1, raw1 = run_harness([lines[i]], analyze=analyze, timeout=60)
+                ans.append(one[0] if one else f"crash:rc={rc1}")
+        for i, a in zip(idx, ans):
+            out[i] = a
+    return out, complete
